@@ -62,6 +62,15 @@ Theorem c16_name_parse_sound : C16_name_parse_sound.
 Proof. exact c16_name_parse_sound_proof. Qed.
 Print Assumptions c16_name_parse_sound.
 
+(* every sequence the writer accepted is in the class of the round-trip theorems (4 GiB bound aside) *)
+Theorem c16_written_is_seq_ok : C16_written_is_seq_ok.
+Proof. exact c16_written_is_seq_ok_proof. Qed.
+Print Assumptions c16_written_is_seq_ok.
+
+Theorem c16_unfixed_writer_accepts_empty : C16_unfixed_writer_accepts_empty.
+Proof. exact c16_unfixed_writer_accepts_empty_proof. Qed.
+Print Assumptions c16_unfixed_writer_accepts_empty.
+
 Theorem c16_fetch : forall T dec, C16_fetch T dec.
 Proof. exact c16_fetch_proof. Qed.
 Print Assumptions c16_fetch.
